@@ -81,14 +81,25 @@ Init ==
   /\ objs = [b \in 1..Len(Pool) |->
                [k |-> Pool[b].k, buf |-> b,
                 shape |-> IF Pool[b].k = "U" THEN <<Dg, Pg>> \o Pool[b].es ELSE Pool[b].es,
-                cells |-> Iota(Len(InitBuf(b, Pool[b])))]]
+                cells |-> Iota(Len(InitBuf(b, Pool[b]))),
+                ct |-> IsCplx(Pool[b])]]               \* complex-TYPED storage (NumPy dtype kind), independent of the values
   /\ hist = <<>>
 
 Us == {i \in 1..Len(objs) : objs[i].k = "U"}
 As == {i \in 1..Len(objs) : objs[i].k = "A"}
 CanGrow == Len(hist) < MaxLen /\ Len(objs) < MaxObjs
 CanStep == Len(hist) < MaxLen
-NewObj(r, rec) == /\ heap' = r.heap /\ objs' = Append(objs, r.obj) /\ hist' = Append(hist, rec)
+\* element type of a result: NumPy promotion over the operands (value independent); real / imag give real-typed results,
+\* fft / ifft complex-typed ones; views share the type of their parent (they are covered by the same rule: operand i)
+CtOf(rec) ==
+  CASE rec.a \in {"real", "imag"} -> FALSE
+    [] rec.a \in {"fft", "ifft"} -> TRUE
+    [] OTHER -> \/ ("i" \in DOMAIN rec /\ objs[rec.i].ct)
+                \/ ("j" \in DOMAIN rec /\ rec.j \in 1..Len(objs) /\ rec.a \in {"bin", "bina"} /\ objs[rec.j].ct)
+                \/ ("c" \in DOMAIN rec /\ rec.a = "bins" /\ ~RIsReal(rec.c))
+NewObj(r, rec) == /\ heap' = r.heap
+                  /\ objs' = Append(objs, [k |-> r.obj.k, buf |-> r.obj.buf, shape |-> r.obj.shape, cells |-> r.obj.cells, ct |-> CtOf(rec)])
+                  /\ hist' = Append(hist, rec)
 
 \* ------------------------------------------------------------------ arithmetic actions
 \* z = x op y, both UTPM
@@ -132,7 +143,7 @@ IBin(op, i, j) ==
   /\ BroadcastShape(ES(objs[i]), ES(objs[j])) = ES(objs[i])
   /\ DistinctCells(objs[i])
   /\ op = "div" => DivOK(heap, objs[j])
-  /\ RealObj(heap, objs[i]) => RealObj(heap, objs[j])        \* (NumPy cannot store a complex value into a real array in place)
+  /\ ~objs[i].ct => ~objs[j].ct        \* (NumPy cannot store into a real-typed array from a complex-typed one in place, whatever the values)
   /\ LET x == objs[i]  y == objs[j]  es == ES(x)
          Z == TLCEval([p \in 0..(Pg - 1) |-> [e \in 0..(Size(es) - 1) |->
                  SOp(op, Ser(heap, x, p, e), Ser(heap, y, p, BcastSrc(TLCEval(Unravel(e, es)), ES(y), es)))]])
@@ -144,7 +155,7 @@ IBinA(op, i, j) ==
   /\ BroadcastShape(ES(objs[i]), ES(objs[j])) = ES(objs[i])
   /\ DistinctCells(objs[i])
   /\ op = "div" => ADivOK(heap, objs[j])
-  /\ RealObj(heap, objs[i]) => RealObj(heap, objs[j])
+  /\ ~objs[i].ct => ~objs[j].ct
   /\ LET x == objs[i]  c == objs[j]  es == ES(x)
          Z == TLCEval([p \in 0..(Pg - 1) |-> [e \in 0..(Size(es) - 1) |->
                  SOp(op, Ser(heap, x, p, e), CSer(Val(heap, c, BcastSrc(TLCEval(Unravel(e, es)), ES(c), es) + 1)))]])
@@ -153,7 +164,7 @@ IBinA(op, i, j) ==
 IBinS(op, i, c) ==
   /\ "ibins" \in Acts /\ CanStep /\ i \in Us /\ DistinctCells(objs[i])
   /\ op = "div" => c # RZero
-  /\ RealObj(heap, objs[i]) => RIsReal(c)
+  /\ ~objs[i].ct => RIsReal(c)
   /\ LET x == objs[i]
          Z == TLCEval([p \in 0..(Pg - 1) |-> [e \in 0..(NE(x) - 1) |-> SOp(op, Ser(heap, x, p, e), CSer(c))]])
      IN /\ heap' = WriteU(heap, x, Z) /\ objs' = objs
@@ -179,7 +190,7 @@ GetItem(i, ix) ==
   /\ "getitem" \in Acts /\ CanGrow /\ i \in Us /\ ValidIndex(ix, ES(objs[i]))
   /\ LET v == TLCEval(Index(Arr(objs[i]), UIdx(ix)))
      IN /\ Size(v.shape) > 0
-        /\ objs' = Append(objs, [k |-> "U", buf |-> v.buf, shape |-> v.shape, cells |-> v.cells])
+        /\ objs' = Append(objs, [k |-> "U", buf |-> v.buf, shape |-> v.shape, cells |-> v.cells, ct |-> objs[i].ct])
         /\ heap' = heap /\ hist' = Append(hist, [a |-> "getitem", i |-> i, ix |-> ix])
 \* x[ix] = y  (y UTPM): every coefficient copied, broadcast, read from the pre-state
 SetItem(i, ix, j) ==
@@ -191,7 +202,7 @@ SetItem(i, ix, j) ==
          y == TLCEval(objs[j])
      IN /\ Size(v.shape) > 0 /\ DistinctCells(t)
         /\ Broadcastable(ES(t), ES(y)) /\ BroadcastShape(ES(t), ES(y)) = ES(t)
-        /\ RealObj(heap, objs[i]) => RealObj(heap, y)
+        /\ ~objs[i].ct => ~y.ct
         /\ LET es == ES(t)
                Z == TLCEval([p \in 0..(Pg - 1) |-> [e \in 0..(Size(es) - 1) |->
                        Ser(heap, y, p, BcastSrc(TLCEval(Unravel(e, es)), ES(y), es))]])
@@ -207,7 +218,7 @@ SetItemA(i, ix, j) ==
          c == TLCEval(objs[j])
      IN /\ Size(v.shape) > 0 /\ DistinctCells(t)
         /\ Broadcastable(ES(t), ES(c)) /\ BroadcastShape(ES(t), ES(c)) = ES(t)
-        /\ RealObj(heap, objs[i]) => RealObj(heap, c)
+        /\ ~objs[i].ct => ~c.ct
         /\ LET es == ES(t)
                Z == TLCEval([p \in 0..(Pg - 1) |-> [e \in 0..(Size(es) - 1) |->
                        CSer(Val(heap, c, BcastSrc(TLCEval(Unravel(e, es)), ES(c), es) + 1))]])
@@ -218,7 +229,7 @@ SetItemS(i, ix, c) ==
   /\ LET v == TLCEval(Index(Arr(objs[i]), UIdx(ix)))
          t == TLCEval([k |-> "U", buf |-> v.buf, shape |-> v.shape, cells |-> v.cells])
      IN /\ Size(v.shape) > 0 /\ DistinctCells(t)
-        /\ RealObj(heap, objs[i]) => RIsReal(c)
+        /\ ~objs[i].ct => RIsReal(c)
         /\ heap' = WriteU(heap, t, [p \in 0..(Pg - 1) |-> [e \in 0..(NE(t) - 1) |-> CSer(c)]])
         /\ objs' = objs /\ hist' = Append(hist, [a |-> "setitems", i |-> i, ix |-> ix, c |-> c])
 \* x.T : reverses the element axes, a view
@@ -226,7 +237,7 @@ Transpose(i) ==
   /\ "transpose" \in Acts /\ CanGrow /\ i \in Us
   /\ LET o == objs[i]  nd == Len(o.shape)
          v == Permute(Arr(o), [a \in 1..nd |-> IF a <= 2 THEN a ELSE nd + 3 - a])
-     IN /\ objs' = Append(objs, [k |-> "U", buf |-> v.buf, shape |-> v.shape, cells |-> v.cells])
+     IN /\ objs' = Append(objs, [k |-> "U", buf |-> v.buf, shape |-> v.shape, cells |-> v.cells, ct |-> objs[i].ct])
         /\ heap' = heap /\ hist' = Append(hist, [a |-> "transpose", i |-> i])
 \* reshape: a view when the data is one contiguous block in element order, a copy when it is a
 \* genuinely transposed matrix (the cases in which NumPy's choice is unambiguous)
@@ -234,7 +245,7 @@ Reshape(i, nes) ==
   /\ "reshape" \in Acts /\ CanGrow /\ i \in Us /\ Size(nes) = NE(objs[i]) /\ nes # ES(objs[i])
   /\ LET o == objs[i] IN
        \/ /\ Contiguous(Arr(o))
-          /\ objs' = Append(objs, [k |-> "U", buf |-> o.buf, shape |-> <<Dg, Pg>> \o nes, cells |-> o.cells])
+          /\ objs' = Append(objs, [k |-> "U", buf |-> o.buf, shape |-> <<Dg, Pg>> \o nes, cells |-> o.cells, ct |-> objs[i].ct])
           /\ heap' = heap /\ hist' = Append(hist, [a |-> "reshape", i |-> i, es |-> nes, view |-> TRUE])
        \/ /\ ~Contiguous(Arr(o)) /\ Len(ES(o)) = 2 /\ ES(o)[1] >= 2 /\ ES(o)[2] >= 2 /\ DistinctCells(o)
           /\ Len(objs) < MaxObjs
